@@ -72,6 +72,7 @@ func checkPlan(t interface {
 	if out.setupErr != nil {
 		// the harness could not build the scenario (ports, sockets): not a verdict about the relay
 		recRelay.Label("setup-failed", 1)
+		fmt.Fprintf(os.Stderr, "C11 scenario setup failed (no verdict): %v\n", out.setupErr)
 		t.Logf("scenario setup failed: %v", out.setupErr)
 		return
 	}
